@@ -50,6 +50,24 @@ type Config struct {
 	Extra        []string          `json:"extra_packages"`       // analysed for the atomic-step report only (no facts emitted)
 	AtomicSteps  map[string]string `json:"atomic_steps"`         // function id -> lock id: bodies the models treat as ONE atomic step
 	Anchored     []string          `json:"anchored_files"`
+	// functions with NO production caller anywhere in the module (checked by reading, reason in the
+	// config): their accesses are dropped. Every OTHER function that no entry point reaches gets
+	// DefaultRole (a function value / a package outside the list may call it from a transaction).
+	DeadFuncs   map[string]string `json:"dead_functions"` // glob -> reason
+	DefaultRole string            `json:"default_role"`
+	// bg: roles that are NOT multi although the rule below says so (glob -> reason); normally empty
+	SingleBg map[string]string `json:"single_bg_roles"`
+	// owner types of per-generation engine state (see theories/C18/Publication.v): fields of these
+	// types are reached only through the published engine pointer
+	OwnedTypes map[string]string `json:"owned_types"` // "pkg.Type" glob -> reason
+	// functions that PUBLISH their argument (the engine pointer): after such a call the caller
+	// must not run load-role code on the published object any more (Publication.v, pp_load)
+	PublicationCalls []string `json:"publication_calls"`
+	// roles that reach the per-engine objects only through the published pointer
+	ConsumerRoles []string `json:"consumer_roles"`
+	// fields confined to ONE object instance that is served by ONE goroutine (glob of the bg role
+	// -> reason is in reasons): type-level identity merges the instances
+	InstanceConfined map[string]string `json:"instance_confined_fields"` // field -> bg role that owns it
 }
 
 type Access struct {
@@ -61,31 +79,49 @@ type Access struct {
 	File   string   `json:"file"`
 	Line   int      `json:"line"`
 	Roles  []string `json:"roles"`
+	Recv   bool     `json:"via_receiver,omitempty"` // the access goes through the method's own receiver
 }
 
 type fnode struct {
-	id        string
-	decl      ast.Node // *ast.FuncDecl or *ast.FuncLit
-	pkg       *packages.Package
-	body      *ast.BlockStmt
-	parent    *fnode // for function literals: the enclosing function
-	goStart   bool   // literal / function started by a `go` statement
-	accesses  []*Access
-	calls     []callSite
-	locksAt   map[*Access][]string // local locks (before adding entry locks)
-	entry     map[string]bool      // must-held on entry (nil = top / not yet known)
-	isEntry   bool
-	roles     map[string]bool
-	exclusive bool
-	escaped   []*Access
-	acquires  []string // lock acquisitions written in this body (in source order)
-	inherit   []string // for non-go literals: local locks held where the literal is written
+	id           string
+	decl         ast.Node // *ast.FuncDecl or *ast.FuncLit
+	pkg          *packages.Package
+	body         *ast.BlockStmt
+	parent       *fnode // for function literals: the enclosing function
+	goStart      bool   // literal / function started by a `go` statement
+	accesses     []*Access
+	calls        []callSite
+	locksAt      map[*Access][]string // local locks (before adding entry locks)
+	entry        map[string]bool      // must-held on entry (nil = top / not yet known)
+	isEntry      bool
+	roles        map[string]bool
+	exclusive    bool
+	escaped      []*Access
+	acquires     []string // lock acquisitions written in this body (in source order)
+	inherit      []string // for non-go literals: local locks held where the literal is written
+	loop0        int      // for literals: loop depth of the place where the literal is written
+	ownedRecv    bool     // method only ever called on objects under construction (owned.go)
+	byIface      bool     // some call reaches it through an interface
+	tableEntry   bool     // role given by the entry table
+	own          *ownInfo // ownership of fresh local objects (owned.go)
+	offRecv      bool     // some access does not go through the method's receiver
+	recvConfined bool     // every access, also of callees, goes through the receiver
+	ownedDropped int      // accesses dropped because the object was still owned
+	dead         bool     // matches dead_functions: no production caller, accesses dropped
+	defaulted    bool     // no entry point reaches it: got the default role
 }
 
 type callSite struct {
-	callee *fnode
-	locks  []string
-	isGo   bool
+	callee  *fnode
+	locks   []string
+	isGo    bool
+	inLoop  bool         // the call is written inside a for / range body of its function
+	goFresh bool         // `go v.m()` where v is a fresh object the spawner owned up to this statement
+	pos     token.Pos    // position of the call
+	recvVar *types.Var   // x of x.m(...) when x is a plain variable
+	argVars []*types.Var // arguments that are plain variables
+	owned   bool         // method call on an object the caller still owns (owned.go)
+	onRecv  bool         // method call on (a struct value inside) the caller's own receiver
 }
 
 var (
@@ -143,6 +179,7 @@ func main() {
 	}
 	sort.Slice(pkgs, func(i, j int) bool { return pkgs[i].PkgPath < pkgs[j].PkgPath })
 
+	checkOwnedGlobals(pkgs)
 	// pass 1: function nodes
 	for _, p := range pkgs {
 		for _, f := range p.Syntax {
@@ -165,6 +202,46 @@ func main() {
 			}
 		}
 	}
+	// pass 1b: which functions return an object they have just allocated (owned.go);
+	// two rounds so that a constructor built on another constructor is recognised
+	computeLeaks()
+	fresh := map[*fnode]bool{}
+	freshFns = fresh
+	freshCall = func(info *types.Info, c *ast.CallExpr) bool {
+		var obj types.Object
+		switch f := c.Fun.(type) {
+		case *ast.Ident:
+			obj = info.Uses[f]
+		case *ast.SelectorExpr:
+			if _, isSel := info.Selections[f]; !isSel {
+				obj = info.Uses[f.Sel]
+			}
+		case *ast.IndexExpr:
+			switch fx := f.X.(type) {
+			case *ast.Ident:
+				obj = info.Uses[fx]
+			case *ast.SelectorExpr:
+				obj = info.Uses[fx.Sel]
+			}
+		}
+		if fn, ok := obj.(*types.Func); ok {
+			if o := fn.Origin(); o != nil {
+				fn = o
+			}
+			return fresh[byObj[fn]] && byObj[fn] != nil
+		}
+		return false
+	}
+	for round := 0; round < 2; round++ {
+		for _, n := range sortedNodes() {
+			if _, ok := n.decl.(*ast.FuncDecl); ok {
+				n.own = computeOwnership(n)
+				if returnsFresh(n) {
+					fresh[n] = true
+				}
+			}
+		}
+	}
 	// pass 2: bodies
 	for _, n := range sortedNodes() {
 		if _, ok := n.decl.(*ast.FuncDecl); ok {
@@ -176,12 +253,20 @@ func main() {
 		for pat, role := range cfg.Entry {
 			if ok, _ := filepath.Match(pat, n.id); ok {
 				n.isEntry = true
+				n.tableEntry = true
 				if strings.HasPrefix(role, "!") {
 					n.exclusive = true
 					role = role[1:]
 				}
 				addRole(n, role)
 			}
+		}
+	}
+	// package initialisers run before main
+	for _, n := range sortedNodes() {
+		if fd, ok := n.decl.(*ast.FuncDecl); ok && fd.Recv == nil && fd.Name.Name == "init" {
+			n.isEntry = true
+			addRole(n, "init")
 		}
 	}
 	// `go` statements create background roles
@@ -194,17 +279,28 @@ func main() {
 			}
 		}
 	}
+	markDead()
 	propagateRoles()
+	assignDefaultRoles()
+	computeMultiRoles()
 	propagateLocks()
+	computeOwnedReceiver()
 
 	// collect
 	var all []Access
 	for _, n := range sortedNodes() {
 		roles := keys(n.roles)
+		if n.dead {
+			continue // no production caller (dead_functions, reason in the config)
+		}
 		if len(roles) == 0 {
-			roles = []string{"unreached"}
+			roles = []string{"unreached"} // cannot happen after assignDefaultRoles; kept as a tripwire
 		}
 		for _, a := range n.accesses {
+			if a.Recv && n.ownedRecv {
+				n.ownedDropped++
+				continue // the receiver is an object under construction (owned.go)
+			}
 			l := map[string]bool{}
 			for _, x := range n.locksAt[a] {
 				l[canon(x)] = true
@@ -469,6 +565,15 @@ func fieldID(info *types.Info, sel *ast.SelectorExpr) (string, *types.Var, bool)
 	return shortPkg(owner.Obj().Pkg().Path()) + "." + owner.Obj().Name() + "." + v.Name(), v, true
 }
 
+func analysedStruct(t types.Type) bool {
+	n, ok := t.(*types.Named)
+	if !ok || n.Obj().Pkg() == nil || !targets[n.Obj().Pkg().Path()] {
+		return false
+	}
+	_, isStruct := n.Underlying().(*types.Struct)
+	return isStruct
+}
+
 func deref(t types.Type) types.Type {
 	if p, ok := t.(*types.Pointer); ok {
 		return p.Elem()
@@ -516,16 +621,21 @@ func shortPkgOf(t types.Type) string {
 }
 
 type walker struct {
-	n     *fnode
-	info  *types.Info
-	held  map[string]int // lock id -> depth (defer keeps it forever)
-	write map[ast.Expr]bool
-	atom  map[ast.Expr]bool
+	n      *fnode
+	info   *types.Info
+	loop   int               // depth of enclosing for / range statements
+	curGo  token.Pos         // position of the go statement being walked (0 = none)
+	noCopy map[ast.Expr]bool // expressions used as a place (base of a selector, &x, assignment target), not copied
+	elem   map[ast.Expr]bool // x.f used to reach the ELEMENTS of a map / slice (x.f[k], range x.f, len(x.f), delete(x.f, k))
+	held   map[string]int    // lock id -> depth (defer keeps it forever)
+	write  map[ast.Expr]bool
+	atom   map[ast.Expr]bool
 }
 
 func analyse(n *fnode) {
-	w := &walker{n: n, info: n.pkg.TypesInfo, held: map[string]int{}, write: map[ast.Expr]bool{}, atom: map[ast.Expr]bool{}}
+	w := &walker{n: n, info: n.pkg.TypesInfo, loop: n.loop0, held: map[string]int{}, write: map[ast.Expr]bool{}, atom: map[ast.Expr]bool{}, noCopy: map[ast.Expr]bool{}, elem: map[ast.Expr]bool{}}
 	n.locksAt = map[*Access][]string{}
+	n.own = computeOwnership(n)
 	w.block(n.body)
 }
 
@@ -580,24 +690,28 @@ func (w *walker) stmt(s ast.Stmt) {
 	case *ast.AssignStmt:
 		for _, l := range x.Lhs {
 			if sel := baseSel(l); sel != nil {
-				w.write[sel] = true
+				w.markWrite(sel)
 			}
 		}
 		for _, r := range x.Rhs {
 			w.expr(r)
 		}
 		for _, l := range x.Lhs {
+			w.noCopy[l] = true
 			w.expr(l)
+			w.structCopy(l, true)
 		}
 	case *ast.IncDecStmt:
 		if sel := baseSel(x.X); sel != nil {
-			w.write[sel] = true
+			w.markWrite(sel)
 		}
 		w.expr(x.X)
 	case *ast.DeferStmt:
 		w.call(x.Call, true, false)
 	case *ast.GoStmt:
+		w.curGo = x.Pos()
 		w.call(x.Call, false, true)
+		w.curGo = 0
 	case *ast.ReturnStmt:
 		for _, r := range x.Results {
 			w.expr(r)
@@ -633,11 +747,37 @@ func (w *walker) stmt(s ast.Stmt) {
 	case *ast.ForStmt:
 		w.stmt(x.Init)
 		w.expr(x.Cond)
+		w.loop++
 		w.stmt(x.Post)
 		w.block(x.Body)
+		w.loop--
 	case *ast.RangeStmt:
+		w.noCopy[x.X] = true // the container is not copied ...
+		w.markElem(x.X)
 		w.expr(x.X)
+		if id, ok := x.Value.(*ast.Ident); ok && id.Name != "_" { // ... its elements are
+			if tv, ok := w.info.Types[x.X]; ok {
+				var elem types.Type
+				switch t := tv.Type.Underlying().(type) {
+				case *types.Slice:
+					elem = t.Elem()
+				case *types.Array:
+					elem = t.Elem()
+				case *types.Map:
+					elem = t.Elem()
+				case *types.Pointer:
+					if a, ok := t.Elem().Underlying().(*types.Array); ok {
+						elem = a.Elem()
+					}
+				}
+				if elem != nil && !w.ownedPlace(x.X) {
+					w.copyFields(elem, false, x.X.Pos(), 0)
+				}
+			}
+		}
+		w.loop++
 		w.block(x.Body)
+		w.loop--
 	case *ast.SwitchStmt:
 		w.stmt(x.Init)
 		w.expr(x.Tag)
@@ -780,18 +920,45 @@ func (w *walker) expr(e ast.Expr) {
 	case *ast.CallExpr:
 		w.call(x, false, false)
 	case *ast.SelectorExpr:
+		w.noCopy[x.X] = true
 		w.expr(x.X)
+		if !w.noCopy[x] {
+			w.structCopy(x, false)
+		}
 		if id, v, ok := fieldID(w.info, x); ok && !isSyncType(v.Type()) {
+			viaRecv := false
+			if s := w.info.Selections[x]; s != nil && selHopsOK(s) {
+				// (the ELEMENTS of a map / slice held in a field of an owned object are not
+				// covered: a struct copy shares them with its original, a constructor may have
+				// been handed them)
+				if _, owned := w.n.own.ownedObject(w.info, x.X, x.Pos()); owned && !w.elem[x] {
+					w.n.ownedDropped++
+					break // goroutine-private memory (owned.go)
+				}
+				if !w.n.own.receiverRooted(w.info, x.X) {
+					w.n.offRecv = true
+				} else if !w.elem[x] {
+					viaRecv = true
+				}
+			} else {
+				w.n.offRecv = true
+			}
 			pos := fset.Position(x.Sel.Pos())
 			a := &Access{Field: id, Write: w.write[x], Atomic: w.atom[x], Func: w.n.id,
-				File: pos.Filename, Line: pos.Line}
+				File: pos.Filename, Line: pos.Line, Recv: viaRecv}
 			w.n.accesses = append(w.n.accesses, a)
 			w.n.locksAt[a] = w.heldList()
 		}
 	case *ast.UnaryExpr:
 		if x.Op == token.AND {
+			w.noCopy[x.X] = true
 			if sel := baseSel(x.X); sel != nil && !w.atom[sel] {
-				w.write[sel] = true // address escapes: treat as a write
+				// address escapes: treat as a write - unless the field is itself a struct of an
+				// analysed package: what can be done through the pointer is then an access to
+				// one of ITS fields, which has its own facts
+				if _, fv, ok := fieldID(w.info, sel); !(ok && sel == x.X && analysedStruct(fv.Type())) {
+					w.write[sel] = true
+				}
 			}
 		}
 		w.expr(x.X)
@@ -799,13 +966,25 @@ func (w *walker) expr(e ast.Expr) {
 		w.expr(x.X)
 		w.expr(x.Y)
 	case *ast.ParenExpr:
+		if w.noCopy[x] {
+			w.noCopy[x.X] = true
+		}
 		w.expr(x.X)
 	case *ast.StarExpr:
 		w.expr(x.X)
+		if !w.noCopy[x] {
+			w.structCopy(x, false)
+		}
 	case *ast.IndexExpr:
+		w.noCopy[x.X] = true
+		w.markElem(x.X)
 		w.expr(x.X)
 		w.expr(x.Index)
+		if !w.noCopy[x] {
+			w.structCopy(x, false)
+		}
 	case *ast.SliceExpr:
+		w.markElem(x.X)
 		w.expr(x.X)
 		w.expr(x.Low)
 		w.expr(x.High)
@@ -823,10 +1002,131 @@ func (w *walker) expr(e ast.Expr) {
 	}
 }
 
+// markWrite: `x.f.g = v` modifies the memory of x.f as well when f is a struct
+// VALUE (g may belong to a type outside the analysed packages and have no fact of
+// its own): every selector of the chain is written up to the first pointer hop.
+func (w *walker) markWrite(sel *ast.SelectorExpr) {
+	for sel != nil {
+		w.write[sel] = true
+		inner, ok := sel.X.(*ast.SelectorExpr)
+		if !ok {
+			return
+		}
+		tv, ok := w.info.Types[inner]
+		if !ok || !isStructValue(tv.Type) {
+			return
+		}
+		if s := w.info.Selections[sel]; s == nil || len(s.Index()) != 1 {
+			return
+		}
+		sel = inner
+	}
+}
+
+func (w *walker) markElem(e ast.Expr) {
+	for {
+		switch x := e.(type) {
+		case *ast.ParenExpr:
+			e = x.X
+			continue
+		case *ast.StarExpr:
+			e = x.X
+			continue
+		case *ast.SelectorExpr:
+			if tv, ok := w.info.Types[x]; ok {
+				switch tv.Type.Underlying().(type) {
+				case *types.Map, *types.Slice:
+					w.elem[x] = true
+				}
+			}
+		}
+		return
+	}
+}
+
+// ownedPlace: e denotes memory of an object this function still owns, or a plain
+// local variable (its storage belongs to this call)
+func (w *walker) ownedPlace(e ast.Expr) bool {
+	switch x := e.(type) {
+	case *ast.ParenExpr:
+		return w.ownedPlace(x.X)
+	case *ast.Ident:
+		if v, ok := w.info.Uses[x].(*types.Var); ok {
+			if _, isPtr := v.Type().Underlying().(*types.Pointer); !isPtr && !v.IsField() && (v.Pkg() == nil || v.Parent() != v.Pkg().Scope()) {
+				return true // local value: a slice / map variable may still alias shared memory, see structCopy
+			}
+		}
+	}
+	_, owned := w.n.own.ownedObject(w.info, e, e.Pos())
+	return owned
+}
+
+// structCopy: expression e (x.f, *p, x[i]) of an analysed STRUCT VALUE type is used
+// as a value (read = copied out, write = overwritten as a whole): that touches every
+// field of the struct, which have facts of their own ("pkg.Type.field").
+func (w *walker) structCopy(e ast.Expr, write bool) {
+	switch x := e.(type) {
+	case *ast.ParenExpr:
+		w.structCopy(x.X, write)
+		return
+	case *ast.SelectorExpr:
+		if s := w.info.Selections[x]; s == nil || s.Kind() != types.FieldVal {
+			return
+		}
+		if _, owned := w.n.own.ownedObject(w.info, x.X, x.Pos()); owned {
+			return
+		}
+	case *ast.StarExpr:
+		if _, owned := w.n.own.ownedObject(w.info, x, x.Pos()); owned {
+			return
+		}
+		if c, isCall := x.X.(*ast.CallExpr); isCall && freshCall != nil && freshCall(w.info, c) {
+			return // *NewT(...): a copy of an object nobody else has seen yet
+		}
+	case *ast.IndexExpr:
+		if tv, ok := w.info.Types[x.X]; ok {
+			if _, isMap := tv.Type.Underlying().(*types.Map); isMap && write {
+				return // m[k] = v replaces the element; the map write itself is recorded on the field
+			}
+		}
+	default:
+		return
+	}
+	tv, ok := w.info.Types[e]
+	if !ok || !tv.IsValue() {
+		return
+	}
+	w.copyFields(tv.Type, write, e.Pos(), 0)
+}
+
+func (w *walker) copyFields(t types.Type, write bool, at token.Pos, depth int) {
+	n, ok := t.(*types.Named)
+	if !ok || depth > 4 {
+		return
+	}
+	st, ok := n.Underlying().(*types.Struct)
+	if !ok || n.Obj().Pkg() == nil || !targets[n.Obj().Pkg().Path()] {
+		return
+	}
+	pos := fset.Position(at)
+	for i := 0; i < st.NumFields(); i++ {
+		f := st.Field(i)
+		if isSyncType(f.Type()) {
+			continue
+		}
+		id := shortPkg(n.Obj().Pkg().Path()) + "." + n.Obj().Name() + "." + f.Name()
+		a := &Access{Field: id, Write: write, Func: w.n.id + " (whole-struct copy)", File: pos.Filename, Line: pos.Line}
+		w.n.accesses = append(w.n.accesses, a)
+		w.n.locksAt[a] = w.heldList()
+		w.n.offRecv = true
+		w.copyFields(f.Type(), write, at, depth+1)
+	}
+}
+
 func (w *walker) funcLit(x *ast.FuncLit, isGo bool) *fnode {
 	pos := fset.Position(x.Pos())
 	id := fmt.Sprintf("%s$lit@%s:%d", w.n.id, filepath.Base(pos.Filename), pos.Line)
-	n := &fnode{id: id, decl: x, pkg: w.n.pkg, body: x.Body, parent: w.n}
+	n := &fnode{id: id, decl: x, pkg: w.n.pkg, body: x.Body, parent: w.n, loop0: w.loop}
 	nodes[id] = n
 	byLit[x] = n
 	if !isGo {
@@ -834,7 +1134,7 @@ func (w *walker) funcLit(x *ast.FuncLit, isGo bool) *fnode {
 	}
 	analyse(n)
 	// a literal that is not started with `go` runs (we assume) where it is written
-	w.n.calls = append(w.n.calls, callSite{callee: n, locks: w.heldList(), isGo: isGo})
+	w.n.calls = append(w.n.calls, callSite{callee: n, locks: w.heldList(), isGo: isGo, inLoop: w.loop > 0})
 	return n
 }
 
@@ -886,6 +1186,14 @@ func (w *walker) call(c *ast.CallExpr, isDefer, isGo bool) {
 	}
 	// delete(x.f, k) and append-style builtins
 	if id, ok := c.Fun.(*ast.Ident); ok {
+		if _, isB := w.info.Uses[id].(*types.Builtin); isB {
+			switch id.Name {
+			case "len", "cap", "append", "copy", "delete", "clear":
+				for _, a := range c.Args {
+					w.markElem(a)
+				}
+			}
+		}
 		if _, isB := w.info.Uses[id].(*types.Builtin); isB && id.Name == "delete" && len(c.Args) > 0 {
 			if s := baseSel(c.Args[0]); s != nil {
 				w.write[s] = true
@@ -905,10 +1213,86 @@ func (w *walker) call(c *ast.CallExpr, isDefer, isGo bool) {
 		w.funcLit(f, isGo)
 		return
 	case *ast.SelectorExpr:
-		w.expr(f.X)
+		if s := w.info.Selections[f]; s != nil && s.Kind() == types.MethodVal {
+			valueRecv := false
+			if fn, ok := s.Obj().(*types.Func); ok {
+				if r := fn.Type().(*types.Signature).Recv(); r != nil {
+					_, isPtr := r.Type().(*types.Pointer)
+					_, isIface := r.Type().Underlying().(*types.Interface)
+					valueRecv = !isPtr && !isIface
+				}
+			}
+			if !valueRecv {
+				w.noCopy[f.X] = true // x.m() with a pointer receiver takes &x
+				w.expr(f.X)
+			} else {
+				w.noCopy[f.X] = true
+				w.expr(f.X)
+				// value receiver: the callee works on a copy of the whole struct
+				if tv, ok := w.info.Types[f.X]; ok && !w.ownedPlace(f.X) {
+					w.copyFields(deref(tv.Type), false, f.X.Pos(), 0)
+				}
+			}
+		} else {
+			w.expr(f.X)
+		}
+	}
+	owned, onRecv, goFresh := false, false, false
+	if sel, ok := c.Fun.(*ast.SelectorExpr); ok && !isDefer {
+		if s := w.info.Selections[sel]; s != nil && s.Kind() == types.MethodVal && selHopsOK(s) {
+			if !isGo {
+				_, owned = w.n.own.ownedObject(w.info, sel.X, c.Pos())
+				onRecv = w.n.own.receiverRooted(w.info, sel.X)
+			} else if id, ok := sel.X.(*ast.Ident); ok {
+				// `go v.m()`: v fresh and owned right up to this go statement
+				if v, ok := w.info.Uses[id].(*types.Var); ok && w.n.own.ptr[v] && w.n.own.until[v] >= w.curGo && w.curGo != 0 {
+					goFresh = true
+				}
+			}
+		}
+	}
+	var recvVar *types.Var
+	var argVars []*types.Var
+	if sel, ok := c.Fun.(*ast.SelectorExpr); ok {
+		if id, ok := sel.X.(*ast.Ident); ok {
+			recvVar, _ = w.info.Uses[id].(*types.Var)
+		}
+	}
+	for _, a := range c.Args {
+		if id, ok := a.(*ast.Ident); ok {
+			if v, ok := w.info.Uses[id].(*types.Var); ok {
+				argVars = append(argVars, v)
+			}
+		}
 	}
 	for _, callee := range w.resolve(c) {
-		w.n.calls = append(w.n.calls, callSite{callee: callee, locks: w.heldList(), isGo: isGo})
+		w.n.calls = append(w.n.calls, callSite{callee: callee, locks: w.heldList(), isGo: isGo, inLoop: w.loop > 0,
+			owned: owned, onRecv: onRecv, goFresh: goFresh, pos: c.Pos(), recvVar: recvVar, argVars: argVars})
+	}
+	// container/heap and sort call back into the Len/Less/Swap/Push/Pop methods of their first
+	// argument, in the caller's goroutine and under the caller's locks
+	if sel, ok := c.Fun.(*ast.SelectorExpr); ok && len(c.Args) > 0 {
+		if pk, ok := sel.X.(*ast.Ident); ok {
+			if pn, ok := w.info.Uses[pk].(*types.PkgName); ok &&
+				(pn.Imported().Path() == "container/heap" || pn.Imported().Path() == "sort") {
+				if tv, ok := w.info.Types[c.Args[0]]; ok {
+					if nt := namedOf(tv.Type); nt != nil {
+						for _, cm := range methods {
+							rn := namedOf(cm.Type().(*types.Signature).Recv().Type())
+							if rn == nil || rn.Obj() != nt.Obj() {
+								continue
+							}
+							switch cm.Name() {
+							case "Len", "Less", "Swap", "Push", "Pop":
+								if n := byObj[cm]; n != nil {
+									w.n.calls = append(w.n.calls, callSite{callee: n, locks: w.heldList(), isGo: isGo, inLoop: w.loop > 0})
+								}
+							}
+						}
+					}
+				}
+			}
+		}
 	}
 }
 
@@ -935,15 +1319,29 @@ func (w *walker) resolve(c *ast.CallExpr) []*fnode {
 			obj = s.Obj()
 			if fn, ok := obj.(*types.Func); ok {
 				if _, isIface := s.Recv().Underlying().(*types.Interface); isIface {
-					return implementations(fn, s.Recv())
+					impls := implementations(fn, s.Recv())
+					for _, im := range impls {
+						im.byIface = true
+					}
+					return impls
 				}
 			}
 		} else {
 			obj = w.info.Uses[f.Sel]
 		}
-	case *ast.IndexExpr: // generic instantiation f[T](...)
-		if id, ok := f.X.(*ast.Ident); ok {
-			obj = w.info.Uses[id]
+	case *ast.IndexExpr: // generic instantiation f[T](...) / pkg.f[T](...)
+		switch fx := f.X.(type) {
+		case *ast.Ident:
+			obj = w.info.Uses[fx]
+		case *ast.SelectorExpr:
+			obj = w.info.Uses[fx.Sel]
+		}
+	case *ast.IndexListExpr: // f[K, V](...)
+		switch fx := f.X.(type) {
+		case *ast.Ident:
+			obj = w.info.Uses[fx]
+		case *ast.SelectorExpr:
+			obj = w.info.Uses[fx.Sel]
 		}
 	}
 	if fn, ok := obj.(*types.Func); ok {
@@ -968,7 +1366,7 @@ func implementations(m *types.Func, recv types.Type) []*fnode {
 			continue
 		}
 		rt := cm.Type().(*types.Signature).Recv().Type()
-		if types.Implements(rt, iface) || types.Implements(types.NewPointer(deref(rt)), iface) {
+		if types.Implements(rt, iface) || types.Implements(types.NewPointer(deref(rt)), iface) || genericImplements(rt, iface) {
 			if n := byObj[cm]; n != nil {
 				out = append(out, n)
 			}
@@ -977,13 +1375,38 @@ func implementations(m *types.Func, recv types.Type) []*fnode {
 	return out
 }
 
+// genericImplements: the receiver is an uninstantiated generic type (memoryState[T],
+// MemoryCache[K,V] ...): types.Implements cannot answer for it, so the method set
+// is compared by NAME and arity with the interface (every interface method has a
+// method of that name with the same number of parameters and results). An
+// over-approximation: more call edges, never fewer.
+func genericImplements(rt types.Type, iface *types.Interface) bool {
+	n := namedOf(rt)
+	if n == nil || n.TypeParams().Len() == 0 || iface.NumMethods() == 0 {
+		return false
+	}
+	ms := types.NewMethodSet(types.NewPointer(n))
+	for i := 0; i < iface.NumMethods(); i++ {
+		im := iface.Method(i)
+		sel := ms.Lookup(im.Pkg(), im.Name())
+		if sel == nil {
+			return false
+		}
+		a, b := sel.Obj().Type().(*types.Signature), im.Type().(*types.Signature)
+		if a.Params().Len() != b.Params().Len() || a.Results().Len() != b.Results().Len() {
+			return false
+		}
+	}
+	return true
+}
+
 func propagateRoles() {
 	changed := true
 	for changed {
 		changed = false
 		for _, n := range sortedNodes() {
 			for _, c := range n.calls {
-				if c.callee == nil || c.isGo {
+				if c.callee == nil || c.isGo || c.callee.dead || n.dead {
 					continue
 				}
 				if c.callee.exclusive { // keeps only the role given by the entry table
@@ -1000,9 +1423,207 @@ func propagateRoles() {
 	}
 }
 
+// assignDefaultRoles: a function that no entry point reaches is either listed in
+// dead_functions (no production caller anywhere in the module: dropped, with the
+// reason in the config) or is assumed to be callable from a transaction: calls
+// through stored function values, through interfaces implemented outside the
+// analysed packages and from packages outside the list are not followed, so the
+// conservative reading is "any transaction goroutine may call it with no lock
+// held". Roots only (no analysed caller); their callees inherit by propagation.
+func matchesDead(n *fnode) bool {
+	id := n.id
+	if i := strings.Index(id, "$lit@"); i >= 0 {
+		id = id[:i]
+	}
+	for pat := range cfg.DeadFuncs {
+		if ok, _ := filepath.Match(pat, id); ok {
+			return true
+		}
+	}
+	return false
+}
+
+// functions listed in dead_functions take no part in role propagation (an interface
+// call must not be resolved to a test double)
+func markDead() {
+	for _, n := range nodes {
+		if matchesDead(n) {
+			n.dead = true
+			n.roles = nil
+			n.isEntry = false
+		}
+	}
+}
+
+func assignDefaultRoles() {
+	def := cfg.DefaultRole
+	if def == "" {
+		def = "txn"
+	}
+	callers := map[*fnode]int{}
+	for _, n := range nodes {
+		for _, c := range n.calls {
+			if c.callee != nil && c.callee != n {
+				callers[c.callee]++
+			}
+		}
+	}
+	isDead := matchesDead
+	for round := 0; round < 100; round++ {
+		progress := false
+		// first the roots (no caller at all), then - call cycles without an entry - anything left
+		for pass := 0; pass < 2 && !progress; pass++ {
+			for _, n := range sortedNodes() {
+				if len(n.roles) > 0 || n.dead {
+					continue
+				}
+				if pass == 0 && callers[n] > 0 {
+					continue
+				}
+				if isDead(n) {
+					n.dead = true
+				} else {
+					n.isEntry = true
+					n.defaulted = true
+					addRole(n, def)
+				}
+				progress = true
+				if pass == 1 {
+					break
+				}
+			}
+		}
+		if !progress {
+			break
+		}
+		propagateDead()
+		propagateRoles()
+	}
+}
+
+// a function all of whose callers are dead is dead
+func propagateDead() {
+	changed := true
+	for changed {
+		changed = false
+		for _, n := range sortedNodes() {
+			if n.dead || len(n.roles) > 0 || n.isEntry {
+				continue
+			}
+			live, cnt := false, 0
+			for _, m := range nodes {
+				for _, c := range m.calls {
+					if c.callee == n && m != n {
+						cnt++
+						if !m.dead {
+							live = true
+						}
+					}
+				}
+			}
+			if cnt > 0 && !live {
+				n.dead = true
+				changed = true
+			}
+		}
+	}
+}
+
+// computeMultiRoles: can two goroutines of one bg: role be alive at the same time?
+// A `go` statement is executed at most once per process - its role is SINGLE -
+// only if it is the only go statement for that function, is not written inside a
+// loop, and the function that contains it runs in no role but "init" (process
+// start-up) or another single bg role. Everything else (a go statement in a
+// method reachable from a transaction / admin call / another multi role, or in a
+// constructor run by "load": one goroutine per object, several objects after a
+// reload) is MULTI. The roles listed in the config (txn, admin, metrics) are multi
+// by declaration.
+var multiRoles []string
+var multiWhy = map[string]string{}
+
+func computeMultiRoles() {
+	multi := map[string]bool{}
+	for _, r := range cfg.MultiRoles {
+		multi[r] = true
+		multiWhy[r] = "declared (config)"
+	}
+	type gosite struct {
+		spawner *fnode
+		inLoop  bool
+	}
+	sitesOf := map[string][]gosite{}
+	for _, n := range sortedNodes() {
+		for _, c := range n.calls {
+			if c.isGo && c.callee != nil {
+				r := "bg:" + c.callee.id
+				sitesOf[r] = append(sitesOf[r], gosite{n, c.inLoop})
+			}
+		}
+	}
+	bg := make([]string, 0, len(sitesOf))
+	for r := range sitesOf {
+		bg = append(bg, r)
+	}
+	sort.Strings(bg)
+	forcedSingle := func(r string) bool {
+		for pat := range cfg.SingleBg {
+			if ok, _ := filepath.Match(pat, r); ok {
+				return true
+			}
+		}
+		return false
+	}
+	changed := true
+	for changed {
+		changed = false
+		for _, r := range bg {
+			if multi[r] || forcedSingle(r) {
+				continue
+			}
+			why := ""
+			ss := sitesOf[r]
+			if len(ss) > 1 {
+				why = fmt.Sprintf("%d go statements", len(ss))
+			}
+			for _, g := range ss {
+				if why != "" {
+					break
+				}
+				if g.inLoop {
+					why = "go statement inside a loop of " + g.spawner.id
+				}
+				if len(g.spawner.roles) == 0 {
+					why = "spawner " + g.spawner.id + " has no role"
+				}
+				for _, sr := range keys(g.spawner.roles) {
+					if why == "" && sr != "init" && (multi[sr] || !strings.HasPrefix(sr, "bg:")) {
+						why = "spawned by " + g.spawner.id + " which runs in role " + sr
+					}
+				}
+			}
+			if why != "" {
+				multi[r] = true
+				multiWhy[r] = why
+				changed = true
+			}
+		}
+	}
+	multiRoles = keys(multi)
+	// declared ones first, in the declared order (stable output)
+	out := append([]string{}, cfg.MultiRoles...)
+	for _, r := range multiRoles {
+		if !strings.HasPrefix(r, "bg:") {
+			continue
+		}
+		out = append(out, r)
+	}
+	multiRoles = out
+}
+
 // must-held-on-entry: intersection over all call sites; entry points and
 // goroutine starts begin with the empty set.
 func propagateLocks() {
+	computeRecvConfined()
 	for _, n := range nodes {
 		if n.isEntry || n.goStart {
 			n.entry = map[string]bool{}
@@ -1017,6 +1638,12 @@ func propagateLocks() {
 			for _, c := range n.calls {
 				if c.callee == nil {
 					continue
+				}
+				if c.owned && c.callee.recvConfined {
+					if iter == 0 {
+						ownedSkipped = append(ownedSkipped, n.id+" -> "+c.callee.id)
+					}
+					continue // the callee works on an object only this goroutine can reach (owned.go)
 				}
 				at := map[string]bool{}
 				if !c.isGo {
@@ -1053,7 +1680,255 @@ func propagateLocks() {
 
 // ---------------------------------------------------------------- output
 
+func instanceConfinedProblem(all []Access, field, role string) string {
+	owner := field[:strings.LastIndex(field, ".")] // pkg.Type
+	typ := owner[strings.LastIndex(owner, ".")+1:]
+	pk := owner[:strings.LastIndex(owner, ".")]
+	fns := map[string]bool{}
+	for i := range all {
+		a := &all[i]
+		if a.Field != field {
+			continue
+		}
+		if len(a.Roles) != 1 || a.Roles[0] != role {
+			return fmt.Sprintf("%s:%d runs in roles %v", a.Func, a.Line, a.Roles)
+		}
+		if !a.Recv {
+			return fmt.Sprintf("%s:%d does not go through the receiver", a.Func, a.Line)
+		}
+		if !strings.HasPrefix(a.Func, pk+".("+typ+").") {
+			return fmt.Sprintf("%s is not a method of %s", a.Func, owner)
+		}
+		fns[a.Func] = true
+	}
+	if len(fns) == 0 {
+		return "no access found"
+	}
+	// every way into these methods keeps the receiver: a call on the caller's own receiver,
+	// or the go statement that starts the goroutine on a fresh object
+	reach := map[string]bool{}
+	work := []string{}
+	for f := range fns {
+		reach[f] = true
+		work = append(work, f)
+	}
+	for len(work) > 0 {
+		f := work[0]
+		work = work[1:]
+		target := nodes[f]
+		for _, m := range sortedNodes() {
+			if m.dead {
+				continue
+			}
+			for _, c := range m.calls {
+				if c.callee != target {
+					continue
+				}
+				if c.isGo {
+					if !c.goFresh || c.inLoop {
+						return "go statement in " + m.id + " is not on a fresh object"
+					}
+					continue
+				}
+				if !c.onRecv {
+					return m.id + " calls " + f + " on something other than its own receiver"
+				}
+				if !strings.HasPrefix(m.id, pk+".("+typ+").") {
+					return m.id + " is not a method of " + owner
+				}
+				if !reach[m.id] {
+					reach[m.id] = true
+					work = append(work, m.id)
+				}
+			}
+		}
+	}
+	return ""
+}
+
+var ownedSkipped []string
+
+func ownedDroppedList() map[string]int {
+	out := map[string]int{}
+	for _, n := range nodes {
+		if n.ownedDropped > 0 {
+			out[n.id] = n.ownedDropped
+		}
+	}
+	return out
+}
+
+func ownedRecvList() []string {
+	var out []string
+	for _, n := range sortedNodes() {
+		if n.ownedRecv && !n.dead {
+			out = append(out, n.id)
+		}
+	}
+	return out
+}
+
+func freshList() []string {
+	var out []string
+	for n := range freshFns {
+		out = append(out, n.id)
+	}
+	sort.Strings(out)
+	return out
+}
+
+// publicationOrder: a mechanical guard for the first half of the publication
+// protocol at the publication sites named in the configuration: in a function that
+// hands a variable to a publication function (setStream(stream)), no later call on
+// that variable (as receiver or argument) may reach load-role code - such code
+// would touch the new engine after transactions can see it.
+func publicationOrder() []string {
+	pub := map[string]bool{}
+	for _, p := range cfg.PublicationCalls {
+		pub[p] = true
+	}
+	var out []string
+	for _, n := range sortedNodes() {
+		if n.dead {
+			continue
+		}
+		for _, c := range n.calls {
+			if c.callee == nil || !pub[c.callee.id] {
+				continue
+			}
+			for _, v := range c.argVars {
+				for _, d := range n.calls {
+					if d.callee == nil || d.pos <= c.pos || !d.callee.roles["load"] {
+						continue
+					}
+					uses := d.recvVar == v
+					for _, a := range d.argVars {
+						uses = uses || a == v
+					}
+					if uses {
+						out = append(out, fmt.Sprintf("%s runs load-role %s on %s after publishing it with %s (line %d)",
+							n.id, d.callee.id, v.Name(), c.callee.id, fset.Position(d.pos).Line))
+					}
+				}
+			}
+		}
+	}
+	sort.Strings(out)
+	return out
+}
+
+func defaultedList() []string {
+	var out []string
+	for _, n := range sortedNodes() {
+		if n.defaulted {
+			out = append(out, n.id)
+		}
+	}
+	return out
+}
+
+func deadList() []string {
+	var out []string
+	for _, n := range sortedNodes() {
+		if n.dead && len(n.accesses) > 0 {
+			out = append(out, n.id)
+		}
+	}
+	return out
+}
+
 func coqStr(s string) string { return "\"" + strings.ReplaceAll(s, "\"", "\"\"") + "\"" }
+
+func coqListLines(xs []string) string {
+	if len(xs) == 0 {
+		return "[]"
+	}
+	q := make([]string, len(xs))
+	for i, x := range xs {
+		q[i] = "  " + coqStr(x)
+	}
+	return "[\n" + strings.Join(q, ";\n") + "\n]"
+}
+
+func seenFields(kept []Access) map[string]bool {
+	m := map[string]bool{}
+	for _, a := range kept {
+		m[a.Field] = true
+	}
+	return m
+}
+
+func order0(m map[string]bool) []string { return keys(m) }
+
+var ownedWithdrawn = map[string]string{}
+
+// generationFields: the fields (with facts) whose owner type matches owned_types -
+// unless a package-level variable of an analysed package can hold such an object
+// (then the objects are not reachable through the engine pointer only).
+func generationFields(fields []string) []string {
+	var out []string
+	for _, f := range fields {
+		owner := f[:strings.LastIndex(f, ".")]
+		if _, bad := ownedWithdrawn[owner]; bad {
+			continue
+		}
+		for pat := range cfg.OwnedTypes {
+			if ok, _ := filepath.Match(pat, owner); ok {
+				out = append(out, f)
+				break
+			}
+		}
+	}
+	return out
+}
+
+func mentionsNamed(t types.Type, depth int, visit func(*types.Named)) {
+	if depth > 6 {
+		return
+	}
+	switch x := t.(type) {
+	case *types.Named:
+		visit(x)
+	case *types.Pointer:
+		mentionsNamed(x.Elem(), depth+1, visit)
+	case *types.Slice:
+		mentionsNamed(x.Elem(), depth+1, visit)
+	case *types.Array:
+		mentionsNamed(x.Elem(), depth+1, visit)
+	case *types.Map:
+		mentionsNamed(x.Key(), depth+1, visit)
+		mentionsNamed(x.Elem(), depth+1, visit)
+	case *types.Chan:
+		mentionsNamed(x.Elem(), depth+1, visit)
+	}
+}
+
+func checkOwnedGlobals(pkgs []*packages.Package) {
+	for _, p := range pkgs {
+		if !targets[p.PkgPath] || p.Types == nil {
+			continue
+		}
+		sc := p.Types.Scope()
+		for _, nm := range sc.Names() {
+			v, ok := sc.Lookup(nm).(*types.Var)
+			if !ok {
+				continue
+			}
+			mentionsNamed(v.Type(), 0, func(n *types.Named) {
+				if n.Obj().Pkg() == nil {
+					return
+				}
+				id := shortPkg(n.Obj().Pkg().Path()) + "." + n.Obj().Name()
+				for pat := range cfg.OwnedTypes {
+					if ok, _ := filepath.Match(pat, id); ok {
+						ownedWithdrawn[id] = "package-level variable " + shortPkg(p.PkgPath) + "." + nm
+						fmt.Printf("lockset: %s can be reached from package-level variable %s.%s: not treated as per-engine\n", id, shortPkg(p.PkgPath), nm)
+					}
+				}
+			})
+		}
+	}
+}
 
 func coqList(xs []string) string {
 	q := make([]string, len(xs))
@@ -1062,6 +1937,8 @@ func coqList(xs []string) string {
 	}
 	return "[" + strings.Join(q, "; ") + "]"
 }
+
+var freshFns map[*fnode]bool
 
 func writeOutputs(all []Access, outV, outJ, repo string) {
 	ignT := map[string]bool{}
@@ -1084,6 +1961,17 @@ func writeOutputs(all []Access, outV, outJ, repo string) {
 			ignF[f] = true
 		} else {
 			fmt.Printf("lockset: %s has a writer other than %s: not dropped\n", f, fn)
+		}
+	}
+	// instance-confined fields: touched only by the goroutine that serves the object
+	// (role R = `go v.m()` on a fresh v), always through the receiver. Dropped only while
+	// that is what the source says.
+	for f, role := range cfg.InstanceConfined {
+		why := instanceConfinedProblem(all, f, role)
+		if why == "" {
+			ignF[f] = true
+		} else {
+			fmt.Printf("lockset: %s is not confined to one %s goroutine per object (%s): not dropped\n", f, role, why)
 		}
 	}
 	// distinct facts: (field, write, atomic, role, lockset)
@@ -1131,7 +2019,16 @@ func writeOutputs(all []Access, outV, outJ, repo string) {
 	var sb strings.Builder
 	sb.WriteString("(* GENERATED by /verif/lockset from the current /repo source on every check run. Do not edit. *)\n")
 	sb.WriteString("From Coq Require Import List String.\nFrom Verif Require Import C18.Lockset.\nImport ListNotations.\nOpen Scope string_scope.\n\n")
-	sb.WriteString("Definition multi_roles : list string := " + coqList(cfg.MultiRoles) + ".\n\n")
+	sb.WriteString("(* roles of which several goroutines can be alive at once: declared (txn, admin, metrics) + every bg: role whose\n   go statement is not provably executed once per process (computeMultiRoles) *)\n")
+	sb.WriteString("Definition multi_roles : list string := " + coqList(multiRoles) + ".\n\n")
+	sb.WriteString("(* roles that get at a per-engine object only through the published engine pointer (Publication.v) *)\n")
+	sb.WriteString("Definition consumer_roles : list string := " + coqList(cfg.ConsumerRoles) + ".\n\n")
+	genFields := generationFields(order0(seenFields(kept)))
+	sb.WriteString("(* fields of the per-engine object types (lockset/config.json owned_types): a load-role access and a consumer's\n   access to one of them are ordered by publication, not by a common lock *)\n")
+	sb.WriteString("Definition generation_fields : list string := " + coqListLines(genFields) + ".\n\n")
+	pubOrder := publicationOrder()
+	sb.WriteString("(* load-role code run on an engine AFTER the call that publishes it (lockset/config.json publication_calls): must be empty *)\n")
+	sb.WriteString("Definition publication_order_violations : list string := " + coqListLines(pubOrder) + ".\n\n")
 	sb.WriteString("(* function bodies the C01/C02/C09/C12 models treat as one atomic step: \"\" = it is a single critical section *)\n")
 	sb.WriteString("Definition atomic_report : list (string * string) := [\n")
 	afn := make([]string, 0, len(atomicReport))
@@ -1185,7 +2082,7 @@ func writeOutputs(all []Access, outV, outJ, repo string) {
 	}
 	must(os.MkdirAll(filepath.Dir(outJ), 0o755))
 	js, _ := json.MarshalIndent(map[string]any{"sites": kept, "facts": len(order), "access_sites": sites,
-		"functions": len(nodes), "multi_roles": cfg.MultiRoles, "dropped_fields": ignF, "atomic_report": atomicReport}, "", " ")
+		"functions": len(nodes), "multi_roles": multiRoles, "multi_why": multiWhy, "defaulted_functions": defaultedList(), "owned_dropped": ownedDroppedList(), "fresh_constructors": freshList(), "publication_order_violations": pubOrder, "consumer_roles": cfg.ConsumerRoles, "generation_fields": genFields, "owned_types_withdrawn": ownedWithdrawn, "owned_receiver_methods": ownedRecvList(), "owned_call_sites_skipped": ownedSkipped, "dead_functions": deadList(), "dropped_fields": ignF, "atomic_report": atomicReport}, "", " ")
 	must(os.WriteFile(outJ, js, 0o644))
 	fmt.Printf("lockset: %d functions, %d access sites of shared fields, %d distinct facts\n", len(nodes), sites, len(order))
 }
